@@ -14,8 +14,9 @@ import (
 // memory and also to a file.
 type History struct {
 	Stash
-	limit int
-	max   int // limit * 1.1
+	limit    int
+	max      int // limit * 1.1
+	limitSet bool
 }
 
 // Load forms from a file and use that file for updates to history.
@@ -51,6 +52,7 @@ func (h *History) Load(filename string) {
 func (h *History) SetLimit(limit int) {
 	h.limit = limit
 	h.max = h.limit + h.limit/10
+	h.limitSet = true
 }
 
 // Add adds a form to history.
